@@ -112,7 +112,8 @@ _RONS = ["(core:[var(Major),var(Minor),var(Patch)],extra_core:[],build:[])", "(c
          "(core:[var(Major)],extra_core:[],build:[],precedence_order:[])", "(core:[var(Major)],extra_core:[],build:[],precedence_order:[Dev,Post,Major])"]
 _TEMPLATES = ["{{ major }}.{{ minor }}", "{{ semver }}|{{ pep440 }}", "{{ semver_obj.docker }}", "{{ hash(value=bumped_branch, length=0) }}", "{{ hash_int(value=bumped_branch, length=25, allow_leading_zero=true) }}",
               "{{ prefix(value='aé日', length=2) }}", "{{ prefix_if(value=bumped_branch, prefix='+') }}", "{{ sanitize(value=bumped_branch, preset='dotted') }}", "{{ sanitize(value='x', preset='nope') }}",
-              "{{ sanitize(value='a-b', separator='', max_length=0) }}", "{{ format_timestamp(value=bumped_timestamp, format='%Y-%m-%d') }}", "{{ format_timestamp(value=1, format='%Q%') }}",
+              "{{ sanitize(value='a-b', separator='', max_length=0) }}", "{{ sanitize(value='a b c', separator='·', max_length=2) }}", "{{ sanitize(value='aé b', separator='日本', max_length=3, lowercase=true) }}",
+              "{{ sanitize(value='x y', separator='😀', max_length=4) }}", "{{ format_timestamp(value=bumped_timestamp, format='%Y-%m-%d') }}", "{{ format_timestamp(value=1, format='%Q%') }}",
               "{{ format_timestamp(value=99999999999999999) }}", "{{ custom.a.b }}", "{{ nope }}", "{{ major", "{% if dirty %}d{% endif %}", "", "{{ pre_release.label_code }}{{ pre_release.number }}",
               "{{ hash_int(value='x', length=-1) }}", "{{ prefix(value=1, length='x') }}"]
 _INDEX_OPS = ["0=1", "1=x", "-1=5", "~1=2", "~0=1", "9=1", "=1", "0=", "x=1", "0=4294967296", "0={{ major }}", "0", "-1", "~1", "9", "x", "1=2=3"]
